@@ -33,3 +33,12 @@ package cli
 //@   loop 1 invariant rangeindex < len(route.Routes) && count("getMatchingTree") == counttrue0("Matchers).Matches") && !called("SetValue") && final == (counttrue0("Matchers).Matches") == 0)
 //@   loop 1 invariant counttrue0("Matchers).Matches") >= 0
 //@   noeffect getMatchingTree getRouteTreeSlug convertClientToCommonLabelSet Matchers).Matches
+
+// ---- C07: the labels given on the command line reach the routing function verbatim - same names, same values,
+// nothing trimmed, dropped or added - so that amtool and the server route the same label set.
+//@ func convertClientToCommonLabelSet
+//@   props C07
+//@   ensures [verbatim] result != nil && fresh(result) && (forall k string :: (k in result) == (k in cls)) && (forall k string :: k in cls ==> result[k] == cls[k])
+//@   loop 1 invariant fresh(mls) && (forall k string :: k in visited ==> k in mls && mls[k] == cls[k]) && (forall k string :: k in mls ==> k in visited)
+//@             && cls == pre(cls) && dom(cls) == pre(dom(cls)) && (forall k string :: k in visited ==> k in cls)
+//@   assigns nothing
